@@ -119,6 +119,10 @@ func (g *c09gen) list(d int, incDepth int) string {
 const c09nExec = 2500
 
 func c09execCase(c *fw.Ctx, idx int) bool {
+	if idx < c09nBlockCases {
+		c09blockCase(c, idx)
+		return true
+	}
 	r := c.Rand(idx, "c09exec")
 	g := &c09gen{r: r, files: map[string]string{}, pre: "r"}
 	body := g.list(0, 0)
@@ -225,6 +229,6 @@ func init() {
 	registerProg(c09, "reference-evaluator monitor for include/includeIfExists/exec call sites plus a probe-log oracle for exec return values",
 		ruleCommon+"include/exec/includeIfExists call sites at depth <=3 inside range, blocks, try and other includes, static and computed names (also one include action executed with a different name per loop iteration), relative and absolute spellings, with/without explicit context, targets that extend 1-2 levels; "+
 			"every include is preceded by a declaration of an includer variable the target prints, and followed by isset() of a variable the target declares (must be false); "+
-			"the first 2500 cases per run generate exec targets with {{return probe(..)}} at every position (top level, if/else, range/else, try/catch, included templates with and without context, block bodies, yielded content, nested exec): the rendered value must be the last return recorded in the observed call log (nil if none) and none of the target's text may reach the writer; "+
+			"24 directed cases: the includer's (own, overriding, imported) blocks yielded from included/exec'd templates under a nil, empty and filled VarMap; the next ~2500 cases per run generate exec targets with {{return probe(..)}} at every position (top level, if/else, range/else, try/catch, included templates with and without context, block bodies, yielded content, nested exec): the rendered value must be the last return recorded in the observed call log (nil if none) and none of the target's text may reach the writer; "+
 			"non-trivial = an include/exec/includeIfExists site is present (model cases) or >=2 returns were executed (exec cases); distinct by feature set / construct counts", 25000, 800000, 300)
 }
